@@ -42,7 +42,7 @@ func (l lookupGSUB) wouldApply(ctx *wouldApplyContext, accel *otLayoutLookupAcce
 	if len(ctx.glyphs) == 0 {
 		return false
 	}
-	if !accel.digest.mayHave(gID(ctx.glyphs[0])) {
+	if !accel.digest.mayHave(gid16(ctx.glyphs[0])) {
 		return false
 	}
 	// dispatch on subtables
@@ -88,7 +88,7 @@ func matchesLigature(l tables.Ligature, glyphsFromSecond []GID) bool {
 // return `true` is we should apply this lookup to the glyphs in `c`,
 // which are assumed to be non empty
 func (c *wouldApplyContext) wouldApplyGSUB(table tables.GSUBLookup) bool {
-	index, ok := table.Cov().Index(gID(c.glyphs[0]))
+	index, ok := table.Cov().Index(gid16(c.glyphs[0]))
 	switch data := table.(type) {
 	case tables.SingleSubs, tables.MultipleSubs, tables.AlternateSubs, tables.ReverseChainSingleSubs:
 		return len(c.glyphs) == 1 && ok
@@ -134,7 +134,7 @@ func (c *wouldApplyContext) wouldApplyGSUB(table tables.GSUBLookup) bool {
 func (c *otApplyContext) applyGSUB(table tables.GSUBLookup) bool {
 	glyph := c.buffer.cur(0)
 	glyphID := glyph.Glyph
-	index, ok := table.Cov().Index(gID(glyphID))
+	index, ok := table.Cov().Index(gid16(glyphID))
 	if !ok {
 		return false
 	}
